@@ -16,7 +16,7 @@ wt = tempfile.mkdtemp(prefix="verif-benign-")
 ev = tempfile.mkdtemp(prefix="verif-benign-ev-")
 os.rmdir(wt)
 subprocess.run(["git", "-C", "/repo", "worktree", "add", "--detach", wt, "HEAD"], check=True, stdout=subprocess.DEVNULL, stderr=subprocess.DEVNULL)
-res_path = os.path.join(V, "benign", "RESULTS.json")
+res_path = os.environ.get("RESULTS") or os.path.join(V, "benign", "RESULTS.json")
 os.makedirs(os.path.dirname(res_path), exist_ok=True)
 results = json.load(open(res_path)) if os.path.exists(res_path) else {}
 try:
